@@ -68,6 +68,28 @@ CLAIMED = {
    text="Every response (headers and body) of every (tree, request) pair, body fault and conditional request is scanned for the absolute path of the sandbox (and its symlink-resolved form); the specification's responses carry no such datum, so any occurrence is a reject."),
 }
 
+# universes added after four rounds of seeded changes (DESIGN.md 11.7); appended to the level text of each check
+EXT = {
+ "C01": "Further universes: zero-length files, trees large in size only (130 members, 8-level chain, 200 kB / 1.1 MB files), names with dots / blanks / URL metacharacters / URL-like forms, transfer-then-write pairs (DavPairs: every transfer the model carries out followed by every write below its source and destination), modification time among the judged entity headers.",
+ "C02": "Further universes: uploads with an intact body under a pre-cancelled context, faulting uploads under If-None-Match: *, siblings named like scratch files of the target (a.part, a.tmp, a~, .a.tmp), dotted names, the raw spelling universe of C03 judged for failure atomicity, big trees.",
+ "C03": "Quick tier also runs names needing escapes and dotted names with href follow-ups.",
+ "C04": "Conditionals on absent resources follow the statement literally (If-None-Match holds, If-Match 412); the 'other' and 'bad' tag classes rotate through concretisations derived from the current tag (case-folded, suffixed, shortened; unquoted current tag, W/ prefix, unterminated).",
+ "C05": "Plus client-driven histories (DavSim ClientMix -> real webdav.Client -> wire round trip -> real Handler; DavJudge WireChecks / ResultChecks) incl. a large-tree history, URL-like and index names (webby), non-canonical MIME spellings, a 4 500-member listing.",
+ "C07": "Unknown enumeration values judged by in-order evaluation (LazyQuery; eager validation stays accepted); is-not-defined combined with text-matches; a card with a repeated property.",
+ "C08": "Conformant spellings the own client never emits (calendar-data without comp, negate-condition=no, collation), documents beyond 64 KiB (3 000 hrefs, 100 000-character text), sub-second instants, a multiget without paths used for two collections in a row.",
+ "C09": "Conformant spellings the own client never emits (negate-condition=no, collation), documents beyond 64 KiB, carriage returns in match texts, a multiget without paths used twice, more non-numeric limits.",
+ "C10": "Absent tag / time values, empty component set, absent404 layouts, wrapped backend errors, a 150-href multiget, PUT by relative name.",
+ "C11": "Lower bound MustHave of properties per resource kind (incl. a zero-length file); the same local name in two namespaces.",
+ "C12": "A second user (request context) on the same handler in every discovery chain.",
+ "C13": "Graft mutants, byte-edit universe over rich valid documents (single edits exhaustive, pairs seeded), PROPPATCH mutants, the documents CalWire / CardWire classify as outside the RFC, malformed conditional headers, object type with unparsable parameters.",
+ "C14": "Per-property failing propstats (x<k>f<code>), per-response statuses of every class (resp<code>), failed responses carrying condition and description, stalled bodies, unparsable payloads, long-lived clients; the DAV:error condition must arrive as an element of the library's error value.",
+ "C15": "Trees large in size only (48-level chain, 300 children; Xml operators evaluate eagerly), capture into a used value, typed decoding of namespace variants (agreement required).",
+ "C16": "Near-miss texts generated from token sequences (HTTP dates, iCalendar date-times).",
+ "C17": "OS-limit universe (ENAMETOOLONG), spellings of the served directory (trailing slash, /., doubled separator, dot-dot detour, relative to the working directory).",
+ "C18": "CalDAV / CardDAV handlers and the principal helper shared by up to 32 goroutines under the race detector (davxrec), every answer compared with the answer alone; DavConc3 bounded to four requests in total (6.1 M states), DavConcDeep.",
+ "C19": "METHOD values per concretisation, including the empty one.",
+}
+
 NA_REASON = "check not built yet (work in progress; DESIGN.md section 5 describes the planned TLA+ check)"
 
 checks, na = [], []
@@ -82,7 +104,7 @@ for p in props:
             "evidence_file": "/verif/evidence/%s.json" % i,
             "replay_cmd_template": "bin/check %s --replay {path}" % i,
             "engine": c["engine"],
-            "level_claimed": {"category": c.get("level", "model_checking"), "text": c["text"], "design_ref": "DESIGN.md section " + c["design"]},
+            "level_claimed": {"category": c.get("level", "model_checking"), "text": c["text"] + (" " + EXT[i] if i in EXT else ""), "design_ref": "DESIGN.md section " + c["design"]},
             "level_note": c.get("note", TB),
             "technique": c["technique"],
         })
